@@ -31,7 +31,7 @@ func c36Gen(r *rand.Rand, tier string, i int) any {
 	}
 	in := collGen(r, tier, collBias{Tick: 18, Eject: 6, Reload: 5, Stop: true})
 	if len(in.Ops) == 0 || in.Ops[len(in.Ops)-1].Op != "stop" {
-		in.Ops = append(in.Ops, collOp{Op: "stop"})
+		in.Ops = append(in.Ops, collOp{Op: "stop", Stall: r.Intn(2) == 0})
 	}
 	if i%4 == 0 { // drained before shutdown: the part of the property that holds
 		stop := in.Ops[len(in.Ops)-1]
